@@ -485,13 +485,15 @@ def splice_fn(text, spec, lo=0, hi=None):
         else:
             raise LostAnchor('bad hint position %r' % where)
     # value-naming wraps:  E  ->  { let r__ = E; <text> r__ }
-    for cid, occ, anchor, t in spec.wraps:
+    for w_ in spec.wraps:
+        cid, occ, anchor, t = w_[:4]
+        wty = w_[4] if len(w_) > 4 else None
         try:
             pos, pend = _find_anchor(text, bo, end, anchor, occ, spec.name, True)
         except LostAnchor:
             spec.lost_hints.append(cid)
             continue
-        add(pos, '{ let r__ = ')
+        add(pos, '{ let r__%s = ' % ((': ' + wty) if wty else ''))
         add(pend, '; ' + mark(t, cid) + ' r__ }')
     if spec.arm_wraps:
         ms = find_matches(masked, bo, end)
